@@ -199,3 +199,47 @@ TEXT = {
 }
 NOT_APPLICABLE = {
 }
+
+
+# ---- later additions, applied to the texts above ----
+def _patch(pid, field, old, new):
+    assert old in TEXT[pid][field], (pid, field, old[:50])
+    TEXT[pid][field] = TEXT[pid][field].replace(old, new, 1)
+
+
+_patch("C13", "text", "and the option loop touches only payload/peer/MAC. Tie:",
+       "and the option loop touches only payload/peer/MAC. Over the whole of query.parse (C13_whole_record, C13_upstream): for every client "
+       "byte string, with os the options of the OPT record the parser reaches, the payload handed to the upstream has the same length, every "
+       "address-carrying ECS option among them shorter than 256 bytes is inert in it (code 0xFFFF, data all zero) and every byte outside those "
+       "options is the client's; that the options lie one after the other inside the payload with their length byte in place is proved from the "
+       "parser (its cursor always denotes a position of the message), not assumed. Tie:")
+_patch("C13", "note", "The statement over whole encoded queries (parser located the options) rests on the correspondence check for the parser part.",
+       "Options of 256 bytes or more are outside the whole-parse theorem: the code reads the option length from one byte (observation in DESIGN "
+       "section 6); the boolean c13_ok spec still judges them on the implementation's output.")
+_patch("C13", "technique", "Coq proof about the in-place rewrite +",
+       "Coq proof about the in-place rewrite and about the whole parse (cursor-position invariant) +")
+_patch("C14", "text", "and is at most 12 characters; whatever bytes",
+       "and is at most 12 characters; two MACs with the same vendor prefix and the same id give the very same client info, and neither "
+       "MAC-derived header value is long enough to hold the textual MAC (C14_mac_dependence, C14_no_full_mac); whatever bytes")
+_patch("C15", "text", "and Properties/C15_instance.v evaluates table_ok on it. Not provable here:",
+       "and Properties/C15_instance.v evaluates table_ok on it. For the 'some sequential order' clause the state that concurrent responses "
+       "share, the per-profile last-modified register, is proved to be a max-register (C15_lastmod_any_order: every sequential order of the "
+       "same announcements leaves their maximum; monotone; covers every stamp), and the engine lmconc compares the real resolver's register "
+       "after bursts of 2-16 simultaneous responses with that value. Not provable here:")
+_patch("C15", "technique", "+ Go race-detector stress as failing-input search",
+       "+ Go race-detector stress and concurrent-burst comparison with the proved order-independent value as failing-input search")
+_patch("C16", "text", "That model is tied to the code only by the daemon engine: the real binary started",
+       "That model is tied to the code twice: its parameters (capacity of the error channel; every send on it a select case with a default) "
+       "are read from run.go by a Go-AST translator on every run and Properties/C16_instance.v re-proves the statement for them "
+       "(C16_start_instance); and the daemon engine runs the real binary, which when started")
+_patch("C16", "technique", "+ outcome correspondence check over bind-failure/cancellation matrix",
+       "+ generated start-wrapper parameters (translator) + outcome correspondence check over the bind-failure / cancellation / held-connection matrix")
+_patch("C02", "text", "and the live proxy on structured + mutated + random inputs;",
+       "and the live proxy on structured + mutated + random inputs (sequential, capacity storms, concurrent batches, and a race-detector build "
+       "under concurrent load; a Go runtime abort inside /repo code is a violation);")
+_patch("C11", "note", "URL/ctx wiring in run.go is exercised by the C06 engines.",
+       "The second sentence of the property (id = DoH path = cache context) is checked on the real resolver: histories (request path and "
+       "ResolveInfo.Profile) and the end-to-end engine with four profiles chosen by client address, whose answers depend on the profile, under "
+       "concurrent clients.")
+_patch("C11", "technique", "+ differential correspondence check",
+       "+ differential correspondence check + end-to-end per-profile answers under concurrency")
